@@ -158,21 +158,34 @@ DurRead == Is("durread")
 CleanReopen == Is("cleanreopen") /\ (Chk("reopen") => (Ev.ok /\ StOf(Ev.state) = cur))
                /\ base' = cur /\ wents' = <<>> /\ hs' = <<>> /\ durn' = 0 /\ UNCHANGED <<cur, ver>>
 (* Close of the DB after every handle was closed must succeed and leak nothing (C47) *)
-CloseDB == Is("closedb") /\ (Chk("close") => Ev.ok) /\ UNCHANGED <<cur, hs, cv>>
+CloseDB == Is("closedb") /\ (Chk("close") => (Ev.ok /\ Ev.goroutines = 0 /\ Ev.openfiles = 0)) /\ UNCHANGED <<cur, hs, cv>>
 (* a checkpoint opened as a DB: a consistent prefix containing everything durable at the call; *)
-(* with flushed WAL everything visible at the call (C38)                                       *)
+(* with flushed WAL everything visible at the call; with restricted spans the same inside the  *)
+(* spans (what lies outside is unconstrained) (C38)                                            *)
+InSpans(k, spans) == Len(spans) = 0 \/ \E i \in DOMAIN spans : InR(k, spans[i][1], spans[i][2])
+RestrictSt(st, spans) == [pts |-> [k \in Keys |-> IF InSpans(k, spans) THEN st.pts[k] ELSE Absent],
+                          rks |-> [p \in Prefixes |-> IF InSpans(PK(p), spans) THEN st.rks[p] ELSE {}]]
 Checkpoint == Is("checkpoint")
-              /\ (Chk("ckpt") => /\ Ev.ok
-                                 /\ IF Ev.flushwal THEN StOf(Ev.state) = cur
-                                    ELSE PrefixFrom(StOf(Ev.state), wents, MaxAcked(wents)))
+              /\ (Chk("ckpt") =>
+                    /\ Ev.ok
+                    /\ LET got == RestrictSt(StOf(Ev.state), Ev.spans) IN
+                       IF Ev.flushwal THEN got = RestrictSt(cur, Ev.spans)
+                       ELSE \E n \in MaxAcked(wents)..Len(wents) :
+                               got = RestrictSt(ApplyEntries(base, wents, 1, n), Ev.spans))
               /\ UNCHANGED <<cur, hs, cv>>
+(* C45: the internal keys ScanInternal produced for [a, b), written into an empty DB, give the   *)
+(* source's visible state inside the span                                                        *)
+ScanInt == Is("scanint") /\ (Ev.src = 0 \/ Has(Ev.src))
+           /\ (Chk("scanint") =>
+                 RestrictSt(StOf(Ev.state), <<<<Ev.a, Ev.b>>>>) = RestrictSt(View(Ev.src), <<<<Ev.a, Ev.b>>>>))
+           /\ UNCHANGED <<cur, hs, cv>>
 (* free-form annotations *)
 Note == Is("note") /\ UNCHANGED <<cur, hs, cv>>
 
 TraceNext == \/ Reset \/ Commit \/ Ingest \/ IngestExcise \/ Excise \/ BatchCommit \/ DurablePoint \/ SyncWait \/ Maint
              \/ Snap \/ Efos \/ BatchNew \/ BatchOp \/ Close \/ Get \/ Scan
              \/ NewIter \/ IterOp \/ SetBounds \/ SetOpts \/ CloneIt
-             \/ CrashProbe \/ Reopen \/ Version \/ DurRead \/ CleanReopen \/ CloseDB \/ Checkpoint \/ Note
+             \/ CrashProbe \/ Reopen \/ Version \/ DurRead \/ CleanReopen \/ CloseDB \/ Checkpoint \/ ScanInt \/ Note
 TraceSpec == TraceInit /\ [][TraceNext]_vars
 
 (* acceptance: high-water mark of consumed lines *)
